@@ -141,6 +141,8 @@ func init() {
 						b++
 						if l == 70000 {
 							b = 1
+						} else if l <= 1 {
+							b = 3
 						}
 					}
 					ps = append(ps, Param{Name: fmt.Sprintf("n1-pat%d-len%d", pat, l), Bound: b, V: map[string]int{"n": 1, "pat": pat, "len": l}})
@@ -152,6 +154,7 @@ func init() {
 			b2 := 1
 			if tier == "thorough" {
 				b2 = 2
+				ps = append(ps, Param{Name: "n1-pat0-len1-deeper", Bound: 4, V: map[string]int{"n": 1, "pat": 0, "len": 1}})
 			}
 			if tier == "thorough" {
 				ps = append(ps, Param{Name: "n1-pat0-len1048577", Bound: 0, V: map[string]int{"n": 1, "pat": 0, "len": 1<<20 + 1}})
